@@ -15,6 +15,8 @@ FACETS = {
     "C08": "VRFK",
     "C13": "VRFK",
     "C10": "VRFK",
+    "C19": "VRFK",
+    "C18": "VRFK",
     "C14": "VRSCK",
     "C15": "VRSCTNK",
     "C16": "VRSEK",
@@ -82,6 +84,15 @@ def tgroup(cfg):
 
 
 SPECIAL = {}
+
+
+def _c18_extra(tier):
+    from . import exitprobe
+    return exitprobe.probes(tier)
+
+
+# additional obligations that do not come from a function contract
+EXTRA = {"C18": _c18_extra}
 
 TRUSTED_BASE = [
     "pyvc AST interpreter + symbolic integer encoding (validated differentially against CPython by ./check selftest; not proved)",
